@@ -245,7 +245,13 @@ func (env *ExecEnv) expandParam(fields []*field, pe *ast.ParamExp, mode ExpMode)
 		switch len(env.Args) {
 		case 1:
 			null = true
-			if quote {
+			switch pe.Op {
+			case ":-", ":=", ":?", ":+", "+":
+				// the word, an error or the null string is substituted
+			default:
+				if !quote {
+					break
+				}
 				// "$@" generates zero fields when there are no positional
 				// parameters: drop the empty quoted part that marks the
 				// enclosing double-quotes
